@@ -67,6 +67,25 @@ def run(tier, seed, replay_rows=None):
         for k, lst in groups.items():
             ck.observe(k, "%s: recorded durations do not bracket the body's own clock in %d runs (seen twice), first: %s" % (
                 k, len(lst), json.dumps(lst[0])), dict(rows=lst))
+    if replay_rows is None:
+        # lifetime figures at quiescence under concurrent use: every interleaving of recorders with snapshots/totals
+        # (harness `c01`), all durations 1 ns, so the lifetime mean/min/max must come out as exactly 1
+        import runtraces  # noqa: F401
+        binary = vlib.build_harness()
+        with vlib.Scratch("verif-c17c-") as d:
+            vlib.run_drive(binary, "c01", ["-out", d, "-tier", "quick", "-seed", ck.seed], timeout=1800)
+            f = os.path.join(d, "c01.ndjson")
+            rows2 = vlib.read_ndjson(f)
+            res2, bad2 = vlib.validate_rows("Trace_ProgressStats", "Trace_ProgressStats.cfg", f, var="tr", workers=4)
+        ck.add_tlc("Trace_ProgressStats.cfg", res2)
+        ck.traces += len(rows2)
+        for k in bad2[:1]:
+            t = rows2[k - 1]
+            if t["err"]:
+                raise vlib.MachineryError("c01 scheduler error: " + t["err"])
+            ck.observe("lifetime-figures-wrong-after-concurrent-snapshots",
+                       "after schedule %s the lifetime figures do not cover exactly the recorded durations (%d schedules): %s" % (
+                           t["sched"], len(bad2), json.dumps(t["ev"][-3:])), dict(rows=[rows2[j - 1] for j in bad2[:5]]))
     return ck.finish()
 
 
